@@ -78,8 +78,16 @@ class SuffixTrie(object):
             child = node.children.get(part)
 
             # Wildcards
+            # NOTE: a wildcard matches any label, even one that also starts
+            # a longer rule (e.g. svc.firenet.ch vs. *.svc.firenet.ch)
+            wildcard = node.children.get("*")
+
+            if wildcard is not None and wildcard.leaf:
+                suffix_length = current_length + 1
+                match = wildcard
+
             if child is None:
-                child = node.children.get("*")
+                child = wildcard
 
             # If the current part is not in current node's children, we can stop
             if child is None:
